@@ -18,7 +18,7 @@ ID = "C12"
 ENGINE = "tasks"
 LEVEL = "exploration"
 TECHNIQUE = "deterministic simulation: seeded registration/removal/firing histories on a real ReactorBase vs ordered-phase reference model"
-QUICK_RUNS = 40000
+QUICK_RUNS = 100000
 BATCH = 300
 RUN_WALL_LIMIT_S = 120   # runs take milliseconds; generous because whole-machine stalls >20 s were seen under load
 COMPONENTS = {"real": ["twisted.internet.base.ReactorBase.addSystemEventTrigger/removeSystemEventTrigger/fireSystemEvent",
